@@ -283,6 +283,10 @@ def check(tree, rep, tier='quick', seed=0):
     rep.floor('statuses x years folded', n_status, 15 - 5 * n_unfoldable)
     rep.floor('elementary pieces and break points compared', n_pieces, 16000 * (3 - n_unfoldable))
     rep.floor('figure_tax call sites', n_calls, 9)
+    # ---- the year's schedule is the schedule of the year the user named: the command line hands that year to the solver
+    from ..core import get_core
+    from .. import corerules as R
+    R.k39_cli_options_defined_once(get_core(tree), rep)
 
 
 INFINITY = Fraction(10) ** 29
